@@ -14,6 +14,9 @@
 //!   leaves their tracing counter at 0 instead of the initial 1, so that "never reported" (0) and
 //!   "reported once" (1) differ.  The counter is read through `verif::snap_cc` on an external
 //!   handle: `tracing_word & 0x3FFF`.
+//! * `utrace` - in the same experiment, the sequence of `trace` calls that reached user values
+//!   (`User` records its id, the zero-sized `Zst` records `ZST_TAG`): the observation for element
+//!   types that cannot hold a `Cc`.
 //! * `e2e` - every leaf points back to the holder (a cycle through every position), all external
 //!   handles are dropped, `collect_cycles()` runs; a counting `Drop` tells what was reclaimed.
 //! * `keep`/`after` - same, but one owned leaf keeps an external handle during the first
@@ -33,6 +36,7 @@ thread_local! {
     static LEAF_DROPS: RefCell<Vec<u32>> = const { RefCell::new(Vec::new()) };
     static HOLDER_DROPS: Cell<u32> = const { Cell::new(0) };
     static FIN_LOG: RefCell<Vec<usize>> = const { RefCell::new(Vec::new()) };
+    static TRACE_LOG: RefCell<Vec<usize>> = const { RefCell::new(Vec::new()) };
     pub static OUT: RefCell<String> = const { RefCell::new(String::new()) };
 }
 
@@ -75,7 +79,8 @@ impl Drop for Leaf {
     }
 }
 
-/// A user value: reports nothing when traced, records its identity when finalized.
+/// A user value: reports no `Cc` when traced (but records the call), records its identity when
+/// finalized.
 pub struct User {
     pub id: usize,
 }
@@ -85,12 +90,36 @@ pub fn user(id: usize) -> User {
 }
 
 unsafe impl Trace for User {
-    fn trace(&self, _: &mut Context<'_>) {}
+    fn trace(&self, _: &mut Context<'_>) {
+        TRACE_LOG.with(|l| l.borrow_mut().push(self.id));
+    }
 }
 
 impl Finalize for User {
     fn finalize(&self) {
         FIN_LOG.with(|l| l.borrow_mut().push(self.id));
+    }
+}
+
+/// Tag under which the zero-sized user values are recorded (`zst_tag` in coq/Containers.v).
+pub const ZST_TAG: usize = 999;
+
+/// A ZERO-SIZED user value (no fields, no identity): both `trace` and `finalize` record the call.
+pub struct Zst;
+
+const _: () = assert!(std::mem::size_of::<Zst>() == 0);
+const _: () = assert!(std::mem::size_of::<[Zst; 7]>() == 0);
+const _: () = assert!(std::mem::size_of::<(Zst, Zst)>() == 0);
+
+unsafe impl Trace for Zst {
+    fn trace(&self, _: &mut Context<'_>) {
+        TRACE_LOG.with(|l| l.borrow_mut().push(ZST_TAG));
+    }
+}
+
+impl Finalize for Zst {
+    fn finalize(&self) {
+        FIN_LOG.with(|l| l.borrow_mut().push(ZST_TAG));
     }
 }
 
@@ -176,6 +205,7 @@ fn new_gen(k: usize) -> u64 {
     });
     HOLDER_DROPS.with(|h| h.set(0));
     FIN_LOG.with(|l| l.borrow_mut().clear());
+    TRACE_LOG.with(|l| l.borrow_mut().clear());
     g
 }
 
@@ -254,6 +284,7 @@ fn run_case_erased(
         preclean(&leaves);
         let h = holder(&leaves);
         h.buffer();
+        TRACE_LOG.with(|l| l.borrow_mut().clear());
         ARMED.with(|a| a.set(true));
         let r = catch_unwind(AssertUnwindSafe(collect_cycles));
         let unwound = match r {
@@ -263,6 +294,8 @@ fn run_case_erased(
         assert!(unwound, "case {}: the holder was not traced", id);
         assert!(!ARMED.with(|a| a.get()));
         emit(vec_line(format!("case {} visits", id), leaves.iter().map(|l| tracing_count(l) as u32)));
+        let tl = TRACE_LOG.with(|l| std::mem::take(&mut *l.borrow_mut()));
+        emit(vec_line(format!("case {} utrace", id), tl.into_iter().map(|x| x as u32)));
         drop(h);
         drop(leaves);
         collect_cycles();
